@@ -631,7 +631,8 @@ NSearchsorted(a, v, right) ==
 NInterp(x, xp, fp) ==
     IF NRank(xp) # 1 \/ NRank(fp) # 1 THEN Rej("interp:ndim")
     ELSE IF xp.sh # fp.sh THEN Rej("interp:length")
-    ELSE IF xp.sh[1] = 0 THEN Rej("interp:empty")
+    \* an empty table is refused -- unless there is nothing to interpolate, which NumPy lets pass (accident)
+    ELSE IF xp.sh[1] = 0 THEN (IF NSize(x) = 0 THEN NoDemand("interp:empty-x") ELSE Rej("interp:empty"))
     ELSE IF x.dt = "c" \/ xp.dt = "c" \/ fp.dt = "c" THEN TypeErr("interp:complex")
     ELSE LET n == xp.sh[1]
              X(j) == xp.v[j][1]
